@@ -331,6 +331,10 @@ def _run_shard(exe, cases, timeout, args, env):
         if crashes >= MAX_CRASHES_PER_SHARD:
             # an implementation that crashes/hangs on (almost) every case: the first ones are evidence enough
             break
+        if crashes and _CURRENT is not None and not _CURRENT.replay:
+            budget = float(os.environ.get("VERIF_FAIL_BUDGET_S", "240" if _CURRENT.tier == "quick" else "1200"))
+            if time.time() - _CURRENT.t0 > budget:
+                break   # this shard already has a crash/hang to report and the check's wall budget is used up
         rc, out, err = sh([exe] + list(args), inp=format_cases(todo), timeout=timeout, env=env)
         parsed, order = parse_output(out)
         done = 0
